@@ -33,7 +33,7 @@ def ex(flavour, profile, histories, steps, shards, seed, extra=None, **kw):
 def eng(flavour, engine, args, shards, seed, **kw):
     a = list(args)
     if is_miri(flavour):
-        a += ["--shim", "track", "--refuse-over", str(1 << 20), "--announce", "--miri", "1"]
+        a = ["--shim", "track", "--refuse-over", str(1 << 20), "--announce", "--miri", "1", "--max-len", "70"] + a
     elif flavour == "asan":
         a += ["--shim", "track", "--announce", "--refuse-over", str(1 << 26)]
     elif flavour == "memcheck":
@@ -117,6 +117,26 @@ def plan_for(prop, tier, seed):
         p["jobs"] = explore_mix(["default", "sharing", "static"], tier, seed, q_hist=700, miri=True)
         for j in p["jobs"]:
             j["args"] += ["--cmp-every", "2"]
+    elif n == 4:
+        p["rule"] = ("random programs from the property's grammar: one heap buffer (17-64 bytes, optional spare capacity), 2-3 threads (the main thread is one of them) each owning a clone (optionally pre-truncated) or borrowing &LeanString, each running 1-4 ops from {clone, clone_from, to_lean_string, drop, read, push, push_str, insert, insert_str, remove, retain, truncate, pop, clear, reserve, shrink_to}; released from one start barrier; yields injected at the hook points between the uniqueness test / decrement and the access they guard. Oracle for races/UAF/leaks: Miri (vector clocks + weak-memory emulation), several -Zmiri-seed and preemption rates; oracle for values: one String model per thread; exactly-once release: alloc count == dealloc count after all handles are dropped. evaluations = executions; distinct_nontrivial = distinct observed interleavings, i.e. distinct sequences of (thread, hook site) per program as recorded by the Relaxed trace log")
+        p["assumptions"] += ["Miri's scheduler and its store-buffer emulation SAMPLE schedules and visibility orders; 'every schedule' is not covered and not claimed",
+                             "native runs on x86-TSO cannot exhibit ordering bugs; they are used only for actual double free / use-after-free / leak timing through the shadow heap",
+                             "ThreadSanitizer is not used: it does not model fence(Acquire) and reports a race on the correct drop protocol"]
+        jobs = []
+        combos = [(0.01, 300), (0.05, 300), (0.2, 0), (0.05, 700)]
+        nshard = 16 if quick else 48
+        for i in range(nshard):
+            rate, yp = combos[i % len(combos)]
+            jobs.append(eng("miri", "conc", ["--shim", "count", "--programs", 18 if quick else 60, "--execs", 3 if quick else 8, "--yield-permille", yp],
+                            1, seed * 131 + i, weight=10, timeout=1500 if quick else 10000,
+                            miriflags="-Zmiri-seed=%d -Zmiri-preemption-rate=%s" % (seed * 1000 + i, rate), label="miri(preempt=%s,yield=%d)" % (rate, yp)))
+        if not quick:
+            for i in range(4):
+                jobs.append(eng("miri", "conc", ["--shim", "count", "--programs", 40, "--execs", 6, "--yield-permille", 300], 1, seed * 137 + i, weight=10, timeout=10000,
+                                miriflags="-Zmiri-tree-borrows -Zmiri-seed=%d -Zmiri-preemption-rate=0.05" % (seed * 77 + i), label="miri-tree-borrows"))
+        jobs.append(eng("native-rel", "conc", ["--shim", "shadow", "--programs", 1500 if quick else 20000, "--execs", 10 if quick else 40, "--spin", 200], 8, seed, weight=3))
+        jobs.append(eng("native-dbg", "conc", ["--shim", "shadow", "--programs", 300 if quick else 4000, "--execs", 10, "--spin", 50], 4, seed, weight=3))
+        p["jobs"] = jobs
     else:
         return None
     for j in p["jobs"]:
